@@ -209,6 +209,12 @@ class Ctx:
 
     def failure(self, kind, what, replay):
         """a monitor saw the property fail on the real code for a concrete input"""
+        if isinstance(replay, dict) and "case" in replay and "at" in replay:
+            # keep only the prefix of the op sequence that leads to the failure
+            c = replay["case"]
+            k = replay["at"] + 2
+            if k < len(c):
+                replay = dict(replay, case=c[:k] + ["end"])
         self.failures.append({"kind": kind, "what": what, "replay": replay})
 
     # ------------------------------------------------------- correspondence
@@ -335,7 +341,8 @@ def main(mod, argv):
     if args.replay:
         obj = json.load(open(args.replay))
         ctx = Ctx(prop, tier, seed)
-        ok, log, _ = lake_build()
+        ok, log, _ = lake_build(list(mod.LEAN_MODULES) + list(getattr(mod, "MODEL_MODULES", []))
+                                + ["MpgsModel.Model.DriverUtil"])
         ctx.lean_ok = ok
         return mod.replay(ctx, obj) if hasattr(mod, "replay") else generic_replay(ctx, mod, obj)
 
@@ -343,8 +350,9 @@ def main(mod, argv):
     ctx = Ctx(prop, tier, seed)
     problems = []   # (kind, detail) that mean "no longer shown to hold"
 
-    # 1. build
-    ok, log, build_s = lake_build()
+    # 1. build (only the modules this property needs; setup_cmd builds everything)
+    targets = list(mod.LEAN_MODULES) + list(getattr(mod, "MODEL_MODULES", [])) + ["MpgsModel.Model.DriverUtil"]
+    ok, log, build_s = lake_build(targets)
     if not ok:
         ctx.lean_ok = False
         ctx.lean_problem = "lake build failed"
